@@ -153,7 +153,7 @@ func (k *pkey) scalar(v *big.Int) *num.Int {
 const (
 	nP       = 8
 	nR       = 4
-	nS       = 8
+	nS = 10
 	opEnc    = 0 // nP*nR: at the root Encrypt(m_i, r_j); later CiphertextOp(c, Encrypt(m_i, r_j))
 	opSelf   = opEnc + nP*nR
 	opSelf3  = opSelf + 1
